@@ -54,6 +54,8 @@ class GoFormatter(Formatter):
 
     @override(Formatter)
     def format_comment(self, content: str) -> str:
+        # Go rejects a byte order mark anywhere but at the start of a file.
+        content = content.replace("\ufeff", "")
         return f"// {content}"
 
     @override(Formatter)
@@ -75,7 +77,10 @@ class GoFormatter(Formatter):
 
     @override(Formatter)
     def format_str_value(self, value: str) -> str:
-        return '"{0}"'.format(self.escape_string_literal(value))
+        # Go rejects a raw byte order mark in the middle of a file: spell it
+        # as an escape sequence.
+        escaped = self.escape_string_literal(value).replace("\ufeff", "\\ufeff")
+        return '"{0}"'.format(escaped)
 
     @override(Formatter)
     def format_int_value(self, value: int) -> str:
